@@ -8,6 +8,7 @@ interpretation model `Model/Gsd/Interp.lean` (typed AST → description | error 
 -/
 import ProfiVerif.Lemmas.GsdFaithful5
 import ProfiVerif.Model.Gsd.Peg
+import ProfiVerif.Lemmas.PegAst
 
 namespace PV.C19
 open PV.Gsd
@@ -101,13 +102,37 @@ theorem lex_key_case_module (st : St) (acc : ModAcc) (s : Setting) (key' : Str) 
 theorem lex_type_case (a b : Str) (h : lower a = lower b) : dataTypeOfName a = dataTypeOfName b :=
   dataTypeOfName_case a b h
 
-/-! ### Not proved: the grammar layer -/
+/-! ### The grammar layer -/
 
-/-- NOT PROVED.  End-to-end panic freedom of the model `parse = interp ∘ toAst ∘ PEG`: needs
-"every pair tree the PEG interpreter builds for `gsd.pest` has the shape `toAst` expects", i.e. a
-verified reading of the grammar.  The PEG transcription is validated differentially against the real
-pest parser instead (engine `gsd`), and the pest runtime is trusted not to panic. -/
-def parse_no_panic_full : Prop := ∀ text : Str, parse text ≠ some .panic
+/-- **The parser model never panics, end to end.**  For **every** input text the model
+`parse = interp ∘ toAst ∘ PEG(gsd.pest)` of `gsd_parser::parser::parse_with_warnings` answers a
+description, an error value or (see `parse_fuel_full`) "out of fuel" — never `panic`:
+every pair tree the PEG interpreter builds for the grammar *generated from gsd.pest* has the shape
+`toAst` (i.e. the `match pair.as_rule()` / `.next().unwrap()` / `assert!` / `unreachable!()` code of
+parser.rs) expects, and the interpretation of the resulting AST never panics (`interp_no_panic`).
+
+Proof: `Peg.eval_prod` (for an arbitrary grammar, whatever `eval` produces for an expression is in the
+tree language `Prod` of that expression), `Peg.acc_checked` (a kernel-evaluated decision procedure,
+sound by `Peg.postE_sound`: the child words of every rule of the generated grammar lie in the regular
+language `Peg.acc r` that `toAst` digests — re-evaluated whenever Grammar.lean is regenerated), and
+`Peg.toAst_total` (`toAst` is total on such trees). -/
+theorem parse_no_panic_full (text : Str) : parse text ≠ some .panic := by
+  unfold parse
+  split
+  · simp
+  · simp
+  · next tree htree =>
+    obtain ⟨hr, hok⟩ := Peg.parseGsd_ok Peg.acc_checked Peg.gsd_not_silent htree
+    obtain ⟨ast, hast⟩ := Peg.toAst_total hok hr
+    rw [hast]
+    simp only [ne_eq, Option.some.injEq]
+    exact interp_no_panic ast
+
+/-- Non-vacuity: a text that goes through the PEG, `toAst` and the interpretation. -/
+example : (match parse "#Profibus_DP\nVendor_Name = \"x\" ; c\nModule = \"m\" 0x10, 2\n7\nEndModule\n".toList with
+    | some (.ok (d, _)) => d.vendor == ['x'] && d.availableModules.length == 1
+    | _ => false) = true := by
+  decide +kernel
 
 /-- NOT PROVED.  The PEG never runs out of its fuel bound `3·len + 1000`. -/
 def parse_fuel_full : Prop := ∀ text : Str, parse text ≠ none
